@@ -1,1 +1,72 @@
-From TB Require Import Base.
+(** C05 - any thread count and interleaving: terminates, each piece evaluated exactly once.
+    Statements only.  The executor is the transition system of ExecModel.v (every step of every
+    thread is one lock / try_lock / pop / solve / unlock action) with the concrete rebalancing
+    relation of BalanceModel.v; [n] is the number of worker threads after the clamp
+    max(min(pieces, threads), 1), so thread counts 0, 1 and more-than-pieces are instances.
+    No assumption on the scheduler is made anywhere: the statements hold for every reachable
+    state, i.e. along every interleaving. *)
+From Coq Require Import List Arith Lia Bool Permutation.
+Import ListNotations.
+From TB Require Import ExecModel ExecProofs BalanceModel BalanceProofs.
+
+Section C05.
+Variable piece : Type.
+Variable nfiles gid : piece -> nat.     (* number of files of a piece / id of its first file *)
+Variable n : nat.
+Notation B := (balanced nfiles gid).
+Notation reach := (reach piece n B).
+Notation init := (init piece n).
+
+(** No piece is ever lost or duplicated: solved ++ in-flight ++ queued is always a permutation of
+    the initial work, whatever was rebalanced and whoever retired. *)
+Theorem C05_work_conserved q0 s : (forall i, n <= i -> q0 i = []) -> reach (init q0) s ->
+  Permutation (solved s ++ flat piece n (Fin piece s) ++ flat piece n (q s)) (flat piece n q0).
+Proof.
+  exact (exec_conservation piece n B (balanced_perm piece nfiles gid) (balanced_out piece nfiles gid)
+           (balanced_mono piece nfiles gid) (balanced_total piece nfiles gid) q0 s).
+Qed.
+
+(** When every worker has finished, every piece has been evaluated exactly once. *)
+Theorem C05_exactly_once q0 s : (forall i, n <= i -> q0 i = []) -> reach (init q0) s ->
+  (forall t, t < n -> pc s t = PDone) -> Permutation (solved s) (flat piece n q0).
+Proof.
+  exact (exec_exactly_once piece n B (balanced_perm piece nfiles gid) (balanced_out piece nfiles gid)
+           (balanced_mono piece nfiles gid) (balanced_total piece nfiles gid) q0 s).
+Qed.
+
+(** No deadlock: in every reachable state in which some worker has not finished, some worker can
+    take a step (lock order: execution state, own queue, other queues ascending). *)
+Theorem C05_deadlock_free q0 s : (forall i, n <= i -> q0 i = []) -> reach (init q0) s ->
+  (exists t, t < n /\ pc s t <> PDone) -> exists s', any_step piece n B s s'.
+Proof.
+  exact (exec_deadlock_free piece n B (balanced_perm piece nfiles gid) (balanced_out piece nfiles gid)
+           (balanced_mono piece nfiles gid) (balanced_total piece nfiles gid) q0 s).
+Qed.
+
+(** No livelock: a natural-number measure strictly decreases at EVERY step of EVERY thread, so every
+    execution has at most [measure (init q0)] steps under every scheduler (no fairness needed);
+    with deadlock freedom, every maximal execution ends with all workers finished. *)
+Theorem C05_terminates q0 : (forall i, n <= i -> q0 i = []) ->
+  forall s s', reach (init q0) s -> any_step piece n B s s' -> measure piece n s' < measure piece n s.
+Proof.
+  exact (exec_terminates piece n B (balanced_perm piece nfiles gid) (balanced_out piece nfiles gid)
+           (balanced_mono piece nfiles gid) (balanced_total piece nfiles gid) q0).
+Qed.
+
+(** The rebalancing itself: a permutation of the active queues' work, other queues untouched,
+    queues filled evenly from the front. *)
+Theorem C05_balance_moves_every_item a f f' : B a f f' -> Permutation (flat piece a f') (flat piece a f).
+Proof. exact (balanced_perm piece nfiles gid a f f'). Qed.
+Theorem C05_balance_outside_untouched a f f' i : B a f f' -> a <= i -> f' i = f i.
+Proof. exact (balanced_out piece nfiles gid a f f' i). Qed.
+Theorem C05_balance_even a f f' i j : B a f f' -> i <= j -> j < a -> length (f' j) <= length (f' i).
+Proof. exact (balanced_mono piece nfiles gid a f f' i j). Qed.
+End C05.
+
+Print Assumptions C05_work_conserved.
+Print Assumptions C05_exactly_once.
+Print Assumptions C05_deadlock_free.
+Print Assumptions C05_terminates.
+Print Assumptions C05_balance_moves_every_item.
+Print Assumptions C05_balance_outside_untouched.
+Print Assumptions C05_balance_even.
